@@ -492,6 +492,21 @@ pub(crate) fn run_due_env() {
     }
 }
 
+/// A blocking-pool job (run inline) is blocked in a system call: let the next environment action happen,
+/// jumping the clock to it. Returns false when none is scheduled.
+pub(crate) fn env_step_for_blocked_job() -> bool {
+    let next = KERNEL.with(|k| k.try_borrow().ok().and_then(|k| k.env.iter().map(|e| e.due_ns).min()));
+    let Some(due) = next else { return false };
+    with_kernel(|k| {
+        if due > k.clock_ns {
+            k.clock_ns = due;
+        }
+    });
+    with_stats(|s| s.clock_jumps += 1);
+    run_due_env();
+    true
+}
+
 /// The only thread of the run is about to sleep with nothing that could ever wake it.
 pub(crate) fn blocked_forever(what: &str) {
     simcore::try_with(|d| {
